@@ -156,12 +156,25 @@ func maxu(a, b uint64) uint64 {
 
 // histories enumerates all TiKV histories of exactly the given depth from both initial layouts,
 // with and without reported terms.
-func histories(depth int) []*thist {
+func histories(depth int) []*thist { return historiesFrom(depth, false) }
+
+// historiesFrom: three = start from three regions covering the key space (the right one
+// unbounded), without reported terms: chains of merges into a neighbour need them.
+func historiesFrom(depth int, three bool) []*thist {
 	var all []*thist
 	for _, terms := range []bool{true, false} {
 		inits := []*thist{
 			{name: "one", live: []snap{{id: 1, ver: 1, conf: 1, term: 5, leader: 1, npeers: 3}}, next: 10, terms: terms},
 			{name: "two", live: []snap{{id: 1, end: "b", ver: 2, conf: 1, term: 5, leader: 1, npeers: 3}, {id: 2, start: "b", ver: 2, conf: 1, term: 5, leader: 2, npeers: 3}}, next: 10, terms: terms},
+		}
+		if three {
+			if terms {
+				continue
+			}
+			inits = []*thist{{name: "three", live: []snap{
+				{id: 1, end: "a", ver: 3, conf: 1, term: 5, leader: 1, npeers: 3},
+				{id: 2, start: "a", end: "b", ver: 3, conf: 1, term: 5, leader: 2, npeers: 3},
+				{id: 3, start: "b", ver: 2, conf: 1, term: 5, leader: 1, npeers: 3}}, next: 10, terms: terms}}
 		}
 		for _, in := range inits {
 			for _, s := range in.live {
@@ -475,8 +488,10 @@ type model struct {
 	trail []string
 }
 
-func newModel(depth int) *model {
-	m := &model{hs: histories(depth), cur: -1}
+func newModel(depth int) *model { return newModelFrom(depth, false) }
+
+func newModelFrom(depth int, three bool) *model {
+	m := &model{hs: historiesFrom(depth, three), cur: -1}
 	for _, h := range m.hs {
 		if len(h.msgs) > m.maxA {
 			m.maxA = len(h.msgs)
@@ -621,6 +636,7 @@ func main() {
 		Scenarios: scen,
 		HistScopes: []*hist.Scope{
 			{Name: "deliver/h2/len3", Tiers: "quick", Depth: 4, NewModel: func() hist.Model { return newModel(2) }},
+			{Name: "deliver/three/h2/len4", Tiers: "quick", Depth: 5, NewModel: func() hist.Model { return newModelFrom(2, true) }},
 			{Name: "deliver/h1/len5", Tiers: "quick", Depth: 6, NewModel: func() hist.Model { return newModel(1) }},
 			{Name: "deliver/h3/len4", Tiers: "thorough", Depth: 5, NewModel: func() hist.Model { return newModel(3) }},
 			{Name: "deliver/h2/len6", Tiers: "thorough", Depth: 7, NewModel: func() hist.Model { return newModel(2) }},
